@@ -291,7 +291,7 @@ def run_case(case):
     Ctx.cur = ctx
     try:
         app = ctx.app = make_app(ctx)
-        app._tasks = TaskSet(ctx)
+        common.set_tasks(app, TaskSet(ctx))
         app._running = True
         ticks = 0
         for _ in range(case['n']):
